@@ -4,9 +4,9 @@ repo=${1:-/repo}; shift
 export GOFLAGS=-mod=mod GOPROXY=off GOSUMDB=off
 ov=$(mktemp)
 cat > "$ov" <<EOT
-{"Replace":{"$repo/caldav/zz_findings_test.go":"/verif/findings/caldav_findings_test.go"}}
+{"Replace":{"$repo/caldav/zz_findings_test.go":"/verif/findings/caldav_findings_test.go","$repo/zz_findings_test.go":"/verif/findings/webdav_findings_test.go"}}
 EOT
-(cd "$repo" && go test -overlay "$ov" -vet=off -count=1 -timeout 120s -run 'TestFinding' "$@" ./caldav/)
+(cd "$repo" && go test -overlay "$ov" -vet=off -count=1 -timeout 120s -run 'TestFinding' "$@" ./caldav/ .)
 rc=$?
 rm -f "$ov"
 exit $rc
